@@ -47,7 +47,7 @@ func VersioningProfile() Profile {
 	p.Keys = []string{"k1", "k2"}
 	p.Weights = map[OpKind]int{
 		OpCreateBucket: 1, OpVersioning: 14, OpPut: 22, OpGet: 3, OpDelete: 22, OpMultiDelete: 3, OpCopy: 7, OpAppend: 8,
-		OpMpuCreate: 3, OpMpuPart: 4, OpMpuComplete: 4, OpPutTags: 3, OpTransition: 3,
+		OpMpuCreate: 5, OpMpuPart: 6, OpMpuComplete: 7, OpPutTags: 3, OpTransition: 3,
 	}
 	p.FailPct = 5
 	p.BigBodyPct = 0
@@ -413,7 +413,10 @@ func (g *Gen) Next(m *Model) *Op {
 			op := &Op{Kind: kind, Bucket: pickBucket(), Key: vkit.Pick(r, g.P.Keys)}
 			b := m.Buckets[op.Bucket]
 			if b != nil && !g.P.NoVersionID && r.Chance(45) {
-				if v := g.someVersion(b, op.Key); v != nil {
+				if cur := b.Current(op.Key); cur != nil && r.Chance(50) {
+					// deleting the newest version by id forces a promotion of its predecessor
+					op.VersionID = vkit.Ptr(cur.ID)
+				} else if v := g.someVersion(b, op.Key); v != nil {
 					op.VersionID = vkit.Ptr(v.ID)
 				} else if r.Chance(20) {
 					op.VersionID = vkit.Ptr("01JZZZZZZZZZZZZZZZZZZZZZZZ")
